@@ -152,6 +152,14 @@ Definition rows_ss (oc : ocp) (pt : point) : list (row F) :=
   ++ map (prow L) (o_c_point oc)
   ++ freeT_rows oc pt.
 
+(* shooting methods have no integrator roots: such a constraint is rejected
+   (multiple_shooting.py / single_shooting.py add_constraints) *)
+Definition shooting_accepts (oc : ocp) : bool :=
+  match o_c_roots oc with [] => true | _ => false end.
+
+Definition transcribe_shooting (oc : ocp) (pt : point) (single : bool) : option (list (row F)) :=
+  if shooting_accepts oc then Some (if single then rows_ss oc pt else rows_ms oc pt) else None.
+
 End Shooting.
 Arguments point F : clear implicits.
 Arguments shoot_acc F : clear implicits.
